@@ -62,7 +62,7 @@ func (h *harness) runCase(c Case, ds Decls, wantReject string, nontrivial bool, 
 		return
 	}
 	schema := "{" + f.Header + ",\n \"transform_declarations\": " + c.Decls + "}"
-	out := runSchema(schema, c.Input)
+	out := runSchema(schema, c.Input, ds["FINAL_OUTPUT"])
 	canon, _ := json.Marshal(c)
 	if out.Panic != "" {
 		h.sum.Fail("panic escaped NewSchema/NewTransform/Read", c, out.Panic)
@@ -132,7 +132,7 @@ func (h *harness) runCase(c Case, ds Decls, wantReject string, nontrivial bool, 
 	if len(ds) > 1 {
 		if fo, ok := Inline(ds, ds["FINAL_OUTPUT"], 0); ok {
 			ids := Decls{"FINAL_OUTPUT": fo}
-			iout := runSchema(schemaText(f, ids), c.Input)
+			iout := runSchema(schemaText(f, ids), c.Input, nil)
 			if iout.Rejected && strings.Contains(iout.RejectMsg, "validation failed:\ntransform_declarations") {
 				// the JSON schema has no syntax for the inlined form (an object as argument, an
 				// xpath on a const, ...): this oracle does not apply, the model's eval_spec does
@@ -172,7 +172,7 @@ func (h *harness) runCase(c Case, ds Decls, wantReject string, nontrivial bool, 
 				ods[k] = v
 			}
 			ods["FINAL_OUTPUT"] = &one
-			oout := runSchema(schemaText(f, ods), c.Input)
+			oout := runSchema(schemaText(f, ods), c.Input, nil)
 			if oout.Rejected || oout.Panic != "" || len(oout.Recs) != len(out.Recs) {
 				h.sum.Fail("FINAL_OUTPUT restricted to one child behaves differently at schema/reader level", c, kv.Key)
 				return
@@ -190,6 +190,73 @@ func (h *harness) runCase(c Case, ds Decls, wantReject string, nontrivial bool, 
 				}
 			}
 			h.sum.Hist("oracle:sibling-independence")
+		}
+	}
+
+	// ---- oracle 5: constants and plain fields directly from the documented rules ------------------
+	for i, ro := range out.Recs {
+		mustFail := ""
+		for _, me := range ro.Direct {
+			if me.State == "fail" {
+				mustFail = me.Key
+			}
+		}
+		if mustFail != "" {
+			if ro.Read != "!err" {
+				h.sum.Fail("record must fail (a field selects several nodes or a cast fails) but a result was emitted", c,
+					map[string]interface{}{"record": i, "member": mustFail, "observed": ro.Read})
+				return
+			}
+			continue
+		}
+		if ro.Read == "!err" {
+			continue
+		}
+		for _, me := range ro.Direct {
+			got := memberOf(ro.Read, me.Key, false)
+			want := me.Val
+			if me.State == "absent" {
+				want = "null"
+			}
+			if got != want {
+				h.sum.Fail("member differs from the documented evaluation (anchoring / trim / omit / cast)", c,
+					map[string]interface{}{"record": i, "member": me.Key, "observed": got, "documented": want})
+				return
+			}
+			h.sum.Hist("oracle:direct-member")
+		}
+	}
+
+	// ---- oracle 4: an array of plain constants is emitted in declared order -----------------------
+	if fo.HasObject {
+		for _, kv := range fo.Object {
+			if !kv.D.HasArray || len(kv.D.Array) == 0 {
+				continue
+			}
+			var want []interface{}
+			plain := true
+			for _, e := range kv.D.Array {
+				if e.Const == nil || e.Type != nil || e.NoTrim || e.Keep || strings.TrimSpace(*e.Const) != *e.Const || *e.Const == "" {
+					plain = false
+					break
+				}
+				want = append(want, *e.Const)
+			}
+			if !plain {
+				continue
+			}
+			wb, _ := json.Marshal(map[string]interface{}{kv.Key: want})
+			for i, ro := range out.Recs {
+				if ro.Read == "!err" {
+					continue
+				}
+				if got := memberOf(ro.Read, kv.Key, false); got != canonBytes(wb) {
+					h.sum.Fail("array elements are not emitted in declared order", c,
+						map[string]interface{}{"record": i, "member": kv.Key, "observed": got, "declared": canonBytes(wb)})
+					return
+				}
+			}
+			h.sum.Hist("oracle:array-declared-order")
 		}
 	}
 
